@@ -51,7 +51,9 @@ RULE = ("(1) direct calls: status of 0-5 records over a small identity pool (own
         "interrupted or not. (2) keepalive: lifetimes 0..130 x jitter 5..10 exhaustively, touch payloads. (3) histories: 2-4 "
         "operators with distinct (20%: clashing) priorities, lifetimes 2..60 s, scripted starts/stops/kills/restarts, edits of a "
         "handled object with create/update handlers and a daemon, foreign records (dead, live high/low, unknown fields, missing "
-        "lifetime), per-operator peering-event delivery delays. A case is one process_peering_event call (direct or simulated) "
+        "lifetime), per-operator peering-event delivery delays (12%: later than some keep-alive margin = the late regime, judged "
+        "only by the checks that do not presume timely delivery), 25% restarts under the same identity. A case is one "
+        "process_peering_event call (direct or simulated) "
         "or one keep-alive round; distinct & non-trivial = distinct abstracted (toggle-before, #dead, #prio, #same, own-record, "
         "error, sleep-kind, touch) tuples with a non-empty status.")
 TRUSTED = ["harness/sim (virtual-time loop, fake API server incl. merge-patch of `status`), harness/props/sim_c13.py "
@@ -62,7 +64,9 @@ TRUSTED = ["harness/sim (virtual-time loop, fake API server incl. merge-patch of
 ASSUMPTIONS = ["one virtual clock shared by all operators (no clock skew between operators)",
                "floats in peering records are not generated (the Lean JSON has integers only)",
                "a record without `lastseen` is read as 'just seen' (what the code does); the oracle treats it as live",
-               "histories use lifetimes >= 2 s (lifetime 1 is the separate witness F1) and API latency 1/64 s"]
+               "histories use lifetimes >= 2 s (lifetime 1 is the separate witness F1) and API latency 1/64 s",
+               "the transition system hands an operator the CURRENT status atomically; late views (F4), same-identity restarts (F5) "
+               "and the daemon killer (F3) are outside the Lean model and covered by the simulation oracle only"]
 
 TPS = sim_c13.TPS
 LAT = 1.0 / 64
@@ -83,9 +87,9 @@ def gen_record(rng: Any, my_prio: int) -> Any:
     c = rng.random()
     if c < 0.12:
         pass
-    elif c < 0.86:
+    elif c < 0.92:
         r["priority"] = rng.choice([my_prio - 1, my_prio, my_prio, my_prio + 1, my_prio + 1, 0, 100, -7, 10 ** 6])
-    elif c < 0.90:
+    elif c < 0.95:
         r["priority"] = rng.choice([True, False])
     else:
         r["priority"] = rng.choice(BAD_PRIO)
@@ -93,9 +97,9 @@ def gen_record(rng: Any, my_prio: int) -> Any:
     life: Any = 60
     if c < 0.15:
         pass
-    elif c < 0.80:
+    elif c < 0.86:
         life = r["lifetime"] = rng.choice([0, 1, 1, 2, 5, 10, 60, -5, 3600])
-    elif c < 0.84:
+    elif c < 0.89:
         life = r["lifetime"] = rng.choice([True, False])
     else:
         life = r["lifetime"] = rng.choice(BAD_LIFE)
@@ -106,7 +110,7 @@ def gen_record(rng: Any, my_prio: int) -> Any:
         pass
     elif c < 0.14:
         r["lastseen"] = {"raw": None}
-    elif c < 0.20:
+    elif c < 0.17:
         r["lastseen"] = {"raw": rng.choice(["garbage", "", 5, "2030-13-45", [1]])}
     elif c < 0.55:
         r["lastseen"] = {"age": int(life_i) * TPS + rng.choice([-2, -1, 0, 0, 1, 2]), "fmt": fmt}    # on the deadline
@@ -128,7 +132,7 @@ def gen_direct(rng: Any) -> dict:
     ids = rng.sample(IDS, min(n, len(IDS)))
     records = [[i, gen_record(rng, my_prio)] for i in ids]
     c = rng.random()
-    mode = "dict" if c < 0.94 else rng.choice(["missing", "none", "list", "str", "int"])
+    mode = "dict" if c < 0.96 else rng.choice(["missing", "none", "list", "str", "int"])
     return {"me": "me", "prio": my_prio, "toggle": rng.choice([None, True, True, False, False]),
             "autoclean": rng.random() < 0.9, "name_ok": rng.random() < 0.97, "status_mode": mode, "records": records,
             "latency": rng.choice([0, 1, 1, 2, 64]), "gap": rng.choice([1, 3, 64]),
